@@ -34,7 +34,7 @@ PROPS = {
         lean_module="PrologVerif.Properties.C17",
         ns="PrologVerif.C17",
         streams=[dict(name="c17.expand", quick=3000, thorough=30000),
-                 dict(name="c17.lang", quick=700, thorough=4000, timeout=3000)],
+                 dict(name="c17.lang", quick=700, thorough=2500, timeout=3000, j=8)],
         rule="c17.expand: generated terms (well-formed rules with every body construct at depth <= 4, push-back, strings, left-nested conjunctions; malformed bodies/heads/push-backs; non-rules) -> expand_term/2, expandDCG, dcgBody (what phrase/3 calls) and the compiler's split of the translated body, compared structurally up to variable renaming with the model and with the reference translation; non-trivial = a well-formed rule containing !, \\+, -> or push-back. c17.lang: generated terminating grammars (1-5 non-terminals, arguments, every construct at nesting <= 3, recursion guarded by consumption, push-back never longer than what the body consumes, call//N closures, phrase//1, run-time bodies, strings; loaded as text or by expand_term+assertz) x EVERY list of length <= 4 (thorough: every 8th case <= 6) over {x,y,z}: phrase/3 with all remainders, phrase/2, and generation mode for non-recursive grammars, answers in order with bindings; non-trivial = the grammar contains at least one of !, \\+, ->, push-back; distinct = distinct case text",
         trusted=[
             "modelled (hand-written, correspondence-checked by c17.expand): engine/dcg.go expandDCG, dcgBody, dcgCBody, dcgConstr, dcgNonTerminal, dcgTerminals, Phrase (goal construction); engine/builtin.go expand (no user term_expansion/2); engine/vm.go piArg; engine/iterator.go seqIterator, altIterator, ListIterator as used by dcgTerminals",
